@@ -396,8 +396,14 @@ func (m *Model) Step(o Op, obs Obs) Expect {
 			m.SlotName[o.Dst] = m.name(o.H)
 		}
 	case CSP:
-		s.Lineage = append(s.Lineage, o)
-		e.DefChanges = true
+		if s.Executed || s.Uncertain {
+			// The setting is read when a template is analysed: on a set that has been executed it reaches only the
+			// templates analysed later. No listed property says which; results of this set are not judged any more.
+			s.Unknown = true
+		} else {
+			s.Lineage = append(s.Lineage, o)
+			e.DefChanges = true
+		}
 	case Parse, ParseFiles, ParseGlob, ParseFS:
 		if s.Executed {
 			e.MustErr = true
